@@ -31,6 +31,7 @@ POOL = [
     ("'a' red + '' + 'bc' on blue bold", [("a", A1), ("", {}), ("bc", A2)]),
     ("'' + 'abc' plain", [("", A3), ("abc", {})]),
     ("'ab' + 'cd' + '' three runs", [("ab", A1), ("cd", A3), ("", A2)]),
+    ("'ab' red + 'c' + 'ab' red + 'd' (the same run twice)", [("ab", A1), ("c", A3), ("ab", A1), ("d", A2)]),
 ]
 
 GROUPS = {
@@ -98,10 +99,12 @@ def check(src, rep):
         for a, b in itertools.product(bounds, repeat=2):
             jobs.append(("slice", pi, (a, b)))
             jobs.append(("slice*", pi, (a, b)))
+            if len(runs) >= 3 and n >= 2:
+                jobs.append(("slice@", pi, (a, b)))      # @: another lookup was made on the same object just before
         for qi in range(len(POOL)):
             jobs.append(("add", pi, qi))
             jobs.append(("add*", pi, qi))
-        for s_ in ("", "xy"):
+        for s_ in ("", "xy", "\x1b[31mred?\x1b[39m", "\x1b["):      # a plain str is plain characters, whatever they look like
             for star in ("", "*"):          # *: the operands have been looked at (views memoised) before the operation
                 jobs.append(("add-str" + star, pi, s_))
                 jobs.append(("radd-str" + star, pi, s_))
@@ -121,7 +124,8 @@ def check(src, rep):
     def one(job):
         kind, a, b = job
         looked = kind.endswith("*")
-        kind = kind.rstrip("*")
+        earlier = kind.endswith("@")
+        kind = kind.rstrip("*@")
         operands = []        # (label, model value, runs it was built from)
         try:
             if kind == "join":
@@ -168,6 +172,11 @@ def check(src, rep):
                     rule = "L1-index-like-str" if b >= 0 else "L3-negative-index-and-bounds-like-str"
                 elif kind == "slice":
                     sl = slice(b[0], b[1])
+                    if earlier:
+                        n_ = len(text)
+                        for k_ in (n_ - 1, n_ - 2):
+                            it.callm(v, "__getitem__", slice(k_, None))
+                        label += " (after f[%d:] and f[%d:] on the same object)" % (n_ - 1, n_ - 2)
                     got = _res(it, it.callm(v, "__getitem__", sl))
                     want = ("ok", text[sl], cl[sl])
                     desc = "(%s)[%s:%s]" % (label, "" if b[0] is None else b[0], "" if b[1] is None else b[1])
